@@ -13,6 +13,8 @@ pub mod c10;
 pub mod c11;
 pub mod c12;
 pub mod c13;
+pub mod c14;
+pub mod c15;
 pub mod c17;
 pub mod c18;
 pub mod c19;
@@ -32,6 +34,8 @@ pub fn dispatch(ctx: &Ctx, replay: Option<String>) -> ! {
         "C11" => c11::run(ctx, replay),
         "C12" => c12::run(ctx, replay),
         "C13" => c13::run(ctx, replay),
+        "C14" => c14::run(ctx, replay),
+        "C15" => c15::run(ctx, replay),
         "C17" => c17::run(ctx, replay),
         "C18" => c18::run(ctx, replay),
         "C19" => c19::run(ctx, replay),
